@@ -95,6 +95,12 @@ def gen_frames(rng, cs, quick):
             wrong = bytes([key[0] ^ 1]) + key[1:]
             cs.add(['wepkey %s %s' % (hx(bss_for_wep), hx(wrong)), 'wep ' + hx(hdr + body)], 'wep %s %s' % (hx(wrong), hx(body)), None, 'WEP frame, different key')
             cs.add(['wepkey %s %s' % (hx(rb(rng, 6)), hx(key)), 'wep ' + hx(hdr + body)], None, None, 'WEP frame, key registered for another BSSID')
+            # one decrypter holding keys of different lengths (WEP-104 for another network registered before or after, a key
+            # replaced by one of another length): every network is decrypted with its own key
+            other = rb(rng, 13 if len(key) == 5 else 5)
+            cs.add(['wepkey %s %s' % (hx(rb(rng, 6)), hx(other))] + base + ['wep ' + hx(hdr + body)], 'wep %s %s' % (hx(key), hx(body)), pt, 'WEP frame, a key of another length registered first for another network')
+            cs.add(base + ['wepkey %s %s' % (hx(rb(rng, 6)), hx(other)), 'wep ' + hx(hdr + body)], 'wep %s %s' % (hx(key), hx(body)), pt, 'WEP frame, a key of another length registered afterwards for another network')
+            cs.add(['wepkey %s %s' % (hx(bss_for_wep), hx(other))] + base + ['wep ' + hx(hdr + body)], 'wep %s %s' % (hx(key), hx(body)), pt, 'WEP frame, the key replaced one of another length')
             # ---- TKIP and CCMP with directly supplied keys (not for WDS frames: pairwise keys are per station)
             if to_ds and from_ds:
                 continue
@@ -162,10 +168,18 @@ def handshake_history(rng, sid_n, quick):
     if learn == 'beacon':
         lines.append('wpa ' + hx(W.beacon(bssid, ssid)))
         exp.append(('plain', 0))
+    aps = [bssid]
+    if rng.random() < 0.4:
+        # the same network name served by a second access point, which is only ever seen in its beacons
+        aps.append(bytes([2]) + rb(rng, 5))
+        lines.append('wpa ' + hx(W.beacon(aps[1], ssid)))
+        exp.append(('plain', 0))
     nsta = rng.choice([1, 1, 2, 3])
     events = []
     stations = []
+    first_ap = bssid
     for i in range(nsta):
+        bssid = rng.choice(aps)
         sta = bytes([2]) + rb(rng, 5)
         version = rng.choice([2, 2, 1])
         anonce, snonce = rb(rng, 32), rb(rng, 32)
@@ -212,7 +226,7 @@ def handshake_history(rng, sid_n, quick):
                 seq += [(msg, fr, 1)] * rng.choice([1, 1, 2])
             ptks.append(ptk)
             bads.append(False)
-        stations.append({'sta': sta, 'ptks': ptks, 'bads': bads, 'ptk': None, 'old': None, 'version': version, 'seq': seq, 'done': False, 'idx': i})
+        stations.append({'ap': bssid, 'sta': sta, 'ptks': ptks, 'bads': bads, 'ptk': None, 'old': None, 'version': version, 'seq': seq, 'done': False, 'idx': i})
     # interleave the stations' sequences, beacons and protected data frames
     queues = [list(s['seq']) for s in stations]
     nkeys = 0
@@ -221,7 +235,7 @@ def handshake_history(rng, sid_n, quick):
     while any(queues) or rng.random() < 0.5:
         r = rng.random()
         if r < 0.1:
-            lines.append('wpa ' + hx(W.beacon(bssid, ssid, seq=rng.randrange(4096))))
+            lines.append('wpa ' + hx(W.beacon(rng.choice(aps), ssid, seq=rng.randrange(4096))))
             exp.append(('plain', nkeys))
             continue
         live = [i for i, q in enumerate(queues) if q]
@@ -245,7 +259,7 @@ def handshake_history(rng, sid_n, quick):
         i = rng.randrange(nsta)
         s = stations[i]
         pt = plaintext(rng, rng.choice([1, 16, 40, 200]))
-        to_ds, from_ds, qos, hdr, (da, sa, ta), addrs = header_variant(rng, bssid, s['sta'], bytes([2]) + rb(rng, 5), force=rng.choice([(1, 0), (0, 1)]))
+        to_ds, from_ds, qos, hdr, (da, sa, ta), addrs = header_variant(rng, s['ap'], s['sta'], bytes([2]) + rb(rng, 5), force=rng.choice([(1, 0), (0, 1)]))
         pn = rng.randrange(1 << 48)
         # under the current session keys (or, before any handshake completed, the ones to come), sometimes under superseded ones
         stale = s['old'] is not None and rng.random() < 0.3
